@@ -20,6 +20,7 @@ type vProfile struct {
 	txnOnly bool // transactions only (unique, increasing versions)
 	noPlain bool // SetVersionedEntry/DeleteVersionedEntry only, versions increasing over the run
 	reopen  bool
+	bigBias bool // half of the values are 200 bytes (nearly every record starts a value-log file)
 	races   bool
 	steps   int
 }
@@ -29,6 +30,9 @@ func genWrite(rng *rand.Rand, p vProfile, next *uint64) string {
 	size := corr.Pick(rng, vSizes)
 	if rng.Intn(3) == 0 {
 		size = 32 + rng.Intn(60)
+	}
+	if p.bigBias && rng.Intn(2) == 0 {
+		size = 200
 	}
 	kind := rng.Intn(10)
 	switch {
@@ -151,20 +155,26 @@ var vScripts = map[string][]string{
 	"race_txn": {"txn 61=200", "txn 62=200", "gcw 0 txn 61=40", "read"},
 	// an expired out-of-line entry: GC drops it and removes its file while the LSM still points there
 	"expired": {"txn 61=200@past", "txn 62=200", "read", "gc 0", "read"},
+	// hot/cold buckets: the first write of k goes to the cold bucket, the overwrite to the hot
+	// bucket, both at (file 0, offset 20); then the cold file is sealed and collected
+	"hot_cross":  {"set 0 6b 200", "set 0 6b 200", "set 0 61 200", "read", "gcall", "read", "rotate", "flush", "gcall", "read"},
+	"hot_cross3": {"set 0 6b 200", "set 0 61 200", "set 0 6b 200", "set 0 61 200", "set 0 62 200", "set 0 7aff 200", "set 0 6162 200", "read", "gcall", "read", "set 0 6b 200", "set 0 61 33", "gcall", "read"},
 	// a zero-length transactional value read through Txn.Get before and after its memtable is flushed
 	"txn_empty": {"txn 61=0", "read", "rotate", "flush", "read"},
 }
 
 var vScriptCfg = map[string]vcfg{
-	"sizes":     {Buckets: 2, FileSize: 300, Threshold: 32},
-	"overwrite": {Buckets: 1, FileSize: 300, Threshold: 32},
-	"tie":       {Buckets: 1, FileSize: 300, Threshold: 32},
-	"txn":       {Buckets: 3, FileSize: 300, Threshold: 32},
-	"race_set":  {Buckets: 1, FileSize: 300, Threshold: 32},
-	"race_del":  {Buckets: 1, FileSize: 300, Threshold: 32},
-	"race_txn":  {Buckets: 1, FileSize: 300, Threshold: 32},
-	"expired":   {Buckets: 1, FileSize: 300, Threshold: 32},
-	"txn_empty": {Buckets: 1, FileSize: 300, Threshold: 32},
+	"sizes":      {Buckets: 2, FileSize: 300, Threshold: 32},
+	"overwrite":  {Buckets: 1, FileSize: 300, Threshold: 32},
+	"tie":        {Buckets: 1, FileSize: 300, Threshold: 32},
+	"txn":        {Buckets: 3, FileSize: 300, Threshold: 32},
+	"race_set":   {Buckets: 1, FileSize: 300, Threshold: 32},
+	"race_del":   {Buckets: 1, FileSize: 300, Threshold: 32},
+	"race_txn":   {Buckets: 1, FileSize: 300, Threshold: 32},
+	"expired":    {Buckets: 1, FileSize: 300, Threshold: 32},
+	"txn_empty":  {Buckets: 1, FileSize: 300, Threshold: 32},
+	"hot_cross":  {Buckets: 2, FileSize: 300, Threshold: 32, Hot: 1, HotThr: 2},
+	"hot_cross3": {Buckets: 3, FileSize: 300, Threshold: 32, Hot: 1, HotThr: 2},
 }
 
 func runProg(c *corr.Ctx, cfg vcfg, prog []string, tag string) {
@@ -179,7 +189,7 @@ func runVlog(c *corr.Ctx) error {
 	installHooks()
 	c.Meta("run_module", "RunVlog")
 	c.Meta("exhaustive", false)
-	c.Meta("rule", "programs over a real DB (ValueThreshold 32, 1-3 value-log buckets, value-log file size 160/300/1024 so files rotate every few writes, background compaction paused, flushes gated): plain Set/Del, SetVersionedEntry/DeleteVersionedEntry, multi-key transactions (incl. TTL) with value sizes {0,1,31,32,33,200,32..91} over 6 user keys (byte-prefix pairs, 2 column families); GC (valueLog.rewrite) of chosen / every sealed file at every position; memtable rotation, flush, every compaction kind, close+reopen; GC with a writer running at the yield point between GC's decisions and its write-back. After every step: every touched key through GetVersionedEntry (every written version, version-1, max), GetCF, Txn.Get, and a full DB iterator scan; the value-log layout (files, record counts, head) after every write and GC. non-trivial = at least one value stored out of line and at least one GC or maintenance step; distinct by Gallina term")
+	c.Meta("rule", "programs over a real DB (ValueThreshold 32, 1-3 value-log buckets (one profile with a reserved hot bucket: overwritten keys change bucket, (file, offset) pairs coincide across buckets; the chosen bucket is reported to the model), value-log file size 160/300/1024 so files rotate every few writes, background compaction paused, flushes gated): plain Set/Del, SetVersionedEntry/DeleteVersionedEntry, multi-key transactions (incl. TTL) with value sizes {0,1,31,32,33,200,32..91} over 6 user keys (byte-prefix pairs, 2 column families); GC (valueLog.rewrite) of chosen / every sealed file at every position; memtable rotation, flush, every compaction kind, close+reopen; GC with a writer running at the yield point between GC's decisions and its write-back. After every step: every touched key through GetVersionedEntry (every written version, version-1, max), GetCF, Txn.Get, and a full DB iterator scan; the value-log layout (files, record counts, head) after every write and GC. non-trivial = at least one value stored out of line and at least one GC or maintenance step; distinct by Gallina term")
 	if c.Replay != "" {
 		cases, err := c.ReplayCases()
 		if err != nil {
@@ -193,6 +203,12 @@ func runVlog(c *corr.Ctx) error {
 			var cfg vcfg
 			if m, ok := d["cfg"].(map[string]any); ok {
 				cfg = vcfg{Buckets: int(m["buckets"].(float64)), FileSize: int(m["file_size"].(float64)), Threshold: int(m["threshold"].(float64))}
+				if h, ok := m["hot"].(float64); ok {
+					cfg.Hot = int(h)
+				}
+				if h, ok := m["hot_thr"].(float64); ok {
+					cfg.HotThr = int(h)
+				}
 			}
 			var prog []string
 			if l, ok := d["prog"].([]any); ok {
@@ -216,7 +232,7 @@ func runVlog(c *corr.Ctx) error {
 		// mixed on one DB (db.go: "do not mix"; across a reopen the oracle's next timestamp wraps):
 		// three single-API profiles, plus one mixed profile without reopen that mostly exercises
 		// the known LSM ordering findings.
-		switch i % 3 {
+		switch i % 4 {
 		case 0:
 			p.plain, p.reopen = true, true
 			c.Count("profile_plain")
@@ -227,7 +243,13 @@ func runVlog(c *corr.Ctx) error {
 			p.noPlain, p.reopen = true, true
 			c.Count("profile_versions")
 		default:
-			c.Count("profile_mixed_no_reopen")
+			// hot/cold bucket routing: overwritten plain keys move between buckets, file ids and
+			// offsets coincide across buckets (most records start a file at offset 20)
+			p.plain, p.reopen, p.bigBias = true, true, true
+			cfg.Buckets = 2 + c.Rng.Intn(2)
+			cfg.FileSize = corr.Pick(c.Rng, []int{160, 300, 300})
+			cfg.Hot, cfg.HotThr = 1, 2
+			c.Count("profile_plain_hot_buckets")
 		}
 		p.races = i%2 == 0
 		r := newRun(c, cfg)
